@@ -888,4 +888,184 @@ theorem exec_agree_all (X : Ext) (G : Name → Prop) : ∀ n,
           | ret v' => simp at h; obtain ⟨rfl, rfl⟩ := h; exact ⟨τ', rfl, hagb, hh0⟩
           | exc e' => simp at h; obtain ⟨rfl, rfl⟩ := h; exact ⟨τ', rfl, hagb, hh0⟩
 
+theorem exec_agree (X : Ext) (G : Name → Prop) {n : Nat} {s : Stmt} {σ σ' σ1 : St} {o : Out}
+    (hc : CleanS G s) (hag : Agree G σ σ') (h : exec X n s σ = some (o, σ1)) :
+    ∃ σ1', exec X n s σ' = some (o, σ1') ∧ Agree G σ1 σ1' ∧ SameHidden G σ' σ1' :=
+  (exec_agree_all X G n).1 s σ σ' o σ1 hc hag h
+
+theorem execB_agree (X : Ext) (G : Name → Prop) {n : Nat} {b : Block} {σ σ' σ1 : St} {o : Out}
+    (hc : CleanB G b) (hag : Agree G σ σ') (h : execB X n b σ = some (o, σ1)) :
+    ∃ σ1', execB X n b σ' = some (o, σ1') ∧ Agree G σ1 σ1' ∧ SameHidden G σ' σ1' :=
+  (exec_agree_all X G n).2.1 b σ σ' o σ1 hc hag h
+
+/-! ### blocks -/
+
+theorem execB_nil (X : Ext) (n : Nat) (σ : St) : execB X (n+1) [] σ = some (.normal, σ) := by
+  simp [execB]
+
+theorem execB_cons_inv {X : Ext} {n : Nat} {s : Stmt} {rest : Block} {σ : St} {r : Out × St}
+    (h : execB X (n+1) (s :: rest) σ = some r) :
+    ∃ os σs, exec X n s σ = some (os, σs) ∧
+      ((os = .normal ∧ execB X n rest σs = some r) ∨ (os ≠ .normal ∧ r = (os, σs))) := by
+  simp only [execB] at h
+  cases hs : exec X n s σ with
+  | none => simp [hs] at h
+  | some rs =>
+    obtain ⟨os, σs⟩ := rs
+    rw [hs] at h
+    refine ⟨os, σs, rfl, ?_⟩
+    cases os <;> simp_all
+
+theorem execB_cons_normal {X : Ext} {n : Nat} {s : Stmt} {rest : Block} {σ σs : St}
+    (h : exec X n s σ = some (.normal, σs)) : execB X (n+1) (s :: rest) σ = execB X n rest σs := by
+  simp [execB, h]
+
+theorem execB_cons_abrupt {X : Ext} {n : Nat} {s : Stmt} {rest : Block} {σ σs : St} {os : Out}
+    (h : exec X n s σ = some (os, σs)) (ho : os ≠ .normal) : execB X (n+1) (s :: rest) σ = some (os, σs) := by
+  simp only [execB, h]
+  cases os <;> simp_all
+
+theorem execB_singleton {X : Ext} {n : Nat} {s : Stmt} {σ : St} {r : Out × St}
+    (h : exec X n s σ = some r) : execB X (n+1) [s] σ = some r := by
+  obtain ⟨o, τ⟩ := r
+  cases n with
+  | zero => simp [exec] at h
+  | succ n =>
+    by_cases ho : o = .normal
+    · subst ho; rw [execB_cons_normal h, execB_nil]
+    · exact execB_cons_abrupt h ho
+
+theorem execB_append {X : Ext} {a b : Block} : ∀ {n m : Nat} {σ τ : St} {r : Out × St},
+    execB X n a σ = some (.normal, τ) → execB X m b τ = some r → execB X (n + m) (a ++ b) σ = some r := by
+  induction a with
+  | nil =>
+    intro n m σ τ r h1 h2
+    cases n with
+    | zero => simp [execB] at h1
+    | succ n =>
+      simp [execB] at h1; subst h1
+      exact execB_mono X h2 (by omega)
+  | cons s rest ih =>
+    intro n m σ τ r h1 h2
+    cases n with
+    | zero => simp [execB] at h1
+    | succ n =>
+      obtain ⟨os, σs, hs, hcase⟩ := execB_cons_inv h1
+      rcases hcase with ⟨hn, hr⟩ | ⟨hn, hr⟩
+      · subst hn
+        have : n + 1 + m = (n + m) + 1 := by omega
+        rw [this, List.cons_append, execB_cons_normal (exec_mono X hs (by omega))]
+        exact ih hr h2
+      · simp at hr; exact absurd hr.1.symm hn
+
+theorem execB_append_abrupt {X : Ext} {a : Block} (b : Block) : ∀ {n : Nat} {σ τ : St} {o : Out},
+    execB X n a σ = some (o, τ) → o ≠ .normal → execB X n (a ++ b) σ = some (o, τ) := by
+  induction a with
+  | nil =>
+    intro n σ τ o h1 ho
+    cases n with
+    | zero => simp [execB] at h1
+    | succ n => simp [execB] at h1; exact absurd h1.1.symm ho
+  | cons s rest ih =>
+    intro n σ τ o h1 ho
+    cases n with
+    | zero => simp [execB] at h1
+    | succ n =>
+      obtain ⟨os, σs, hs, hcase⟩ := execB_cons_inv h1
+      rcases hcase with ⟨hn, hr⟩ | ⟨hn, hr⟩
+      · subst hn
+        rw [List.cons_append, execB_cons_normal hs]
+        exact ih hr ho
+      · simp at hr; obtain ⟨rfl, rfl⟩ := hr
+        rw [List.cons_append]; exact execB_cons_abrupt hs hn
+
+/-! ### outcomes -/
+
+/-- An exception no `except E<tag>` handler of the core language catches (NameError, TypeError). -/
+def Out.fatal : Out → Prop
+  | .exc (.nameError _) => True
+  | .exc .typeError => True
+  | _ => False
+
+theorem findHandler_fatal {hs : List (Nat × Block)} {ex : Exc} (h : Out.fatal (.exc ex)) :
+    findHandler hs ex = none := by
+  cases ex <;> simp_all [Out.fatal, findHandler]
+
+/-- A `while` never ends with `break`/`continue`. -/
+theorem exec_while_out (X : Ext) : ∀ {n : Nat} {c : Expr} {b : Block} {σ σ1 : St} {o : Out},
+    exec X n (.whileS c b) σ = some (o, σ1) → o ≠ .brk ∧ o ≠ .cont := by
+  intro n
+  induction n with
+  | zero => intro c b σ σ1 o h; simp [exec] at h
+  | succ n ih =>
+    intro c b σ σ1 o h
+    simp only [exec] at h
+    split at h
+    · split at h
+      · simp at h; simp [← h.1]
+      · split at h
+        · simp at h
+        · exact ih h
+        · exact ih h
+        · simp at h; simp [← h.1]
+        · rename_i r h1 h2 h3 hb
+          simp at h; subst h
+          refine ⟨fun hb' => ?_, fun hc' => ?_⟩
+          · exact h3 _ (by rw [hb'])
+          · exact h2 _ (by rw [hc'])
+    · simp at h; simp [← h.1]
+
+/-- The iterations of a `for` never end with `break`/`continue`. -/
+theorem execFor_out (X : Ext) : ∀ {n : Nat} {x : Name} {ex : Option Expr} {b : Block} {items : List Val}
+    {σ σ1 : St} {o : Out},
+    execFor X n x ex b items σ = some (o, σ1) → o ≠ .brk ∧ o ≠ .cont := by
+  intro n
+  induction n with
+  | zero => intro x ex b items σ σ1 o h; simp [execFor] at h
+  | succ n ih =>
+    intro x ex b items σ σ1 o h
+    cases items with
+    | nil => simp [execFor] at h; simp [← h.1]
+    | cons v items =>
+      cases hb : execB X n b (σ.set x v) with
+      | none => rw [execFor_cons_none hb] at h; simp at h
+      | some rb =>
+        obtain ⟨ob, τ⟩ := rb
+        rw [execFor_cons hb] at h
+        have hnext : forNext X n x ex b items τ = some (o, σ1) → o ≠ .brk ∧ o ≠ .cont := by
+          intro h
+          cases ex with
+          | none => exact ih h
+          | some t =>
+            simp only [forNext] at h
+            split at h
+            · split at h
+              · exact ih h
+              · simp at h; simp [← h.1]
+            · simp at h; simp [← h.1]
+        cases ob with
+        | brk => simp at h; simp [← h.1]
+        | normal => exact hnext h
+        | cont => exact hnext h
+        | ret v' => simp at h; simp [← h.1]
+        | exc e' => simp at h; simp [← h.1]
+
+theorem exec_for_out (X : Ext) {n : Nat} {x : Name} {it : Expr} {ex : Option Expr} {b : Block} {σ σ1 : St} {o : Out}
+    (h : exec X n (.forS x it ex b) σ = some (o, σ1)) : o ≠ .brk ∧ o ≠ .cont := by
+  cases n with
+  | zero => simp [exec] at h
+  | succ n =>
+    simp only [exec] at h
+    split at h
+    · split at h
+      · split at h
+        · exact execFor_out X h
+        · split at h
+          · split at h
+            · exact execFor_out X h
+            · simp at h; simp [← h.1]
+          · simp at h; simp [← h.1]
+      · simp at h; simp [← h.1]
+    · simp at h; simp [← h.1]
+
 end Malt.Sem
